@@ -2,7 +2,8 @@
    Theorems about the reference semantics (Glob/ShellSpec.v) that the implementation is
    compared with on every run, and about the pattern cache (fs/lrucache.py model). *)
 From Coq Require Import List NArith Bool Arith.
-From PyFS Require Import Base.PyStr Path.PathSpec FS.Tree Glob.ShellSpec Glob.LRU Glob.GlobProofs.
+From PyFS Require Import Base.PyStr Base.Outcome Path.PathSpec FS.Tree Glob.ShellSpec Glob.LRU Glob.GlobProofs
+     Glob.Regex Glob.Translate Glob.TranslateProofs.
 Import ListNotations.
 
 (* '*', '?' and classes stay within one component *)
@@ -62,3 +63,49 @@ Theorem C14_cache_keys_unique : forall (V : Type) size (compute : str -> V) c k,
   NoDup (keys c) -> NoDup (keys (snd (cached size compute c k))).
 Proof. exact cached_nodup. Qed.
 Print Assumptions C14_cache_keys_unique.
+
+(* ---- the regex translation performed by the code (Glob/Translate.v), tied to /repo by exact text equality ---- *)
+
+(* the regex text produced by the code (model compared character by character on every run)
+   is the rendering of a regex of the modelled subset *)
+Theorem C14_wild_text_is_regex : forall cs p,
+  wild_regex_text cs p = render_full (wild_regex cs p).
+Proof. exact wild_regex_text_render. Qed.
+Print Assumptions C14_wild_text_is_regex.
+
+Theorem C14_glob_text_is_regex : forall pat,
+  glob_translate_glob pat
+  = omap (fun x : option nat * regex => (fst x, render_full (snd x))) (glob_translate_glob_ast pat).
+Proof. exact glob_translate_glob_render. Qed.
+Print Assumptions C14_glob_text_is_regex.
+
+(* wildcard.match / imatch decide exactly the documented semantics, for all patterns and names *)
+Theorem C14_wild_regex_correct : forall cs p name,
+  re_match (negb cs) (wild_regex cs p) name = wild_spec cs p name.
+Proof. exact wild_regex_correct. Qed.
+Print Assumptions C14_wild_regex_correct.
+
+(* glob.match / imatch on '**'-free patterns with regular classes *)
+Theorem C14_glob_regex_correct : forall cs pat pcs lv r segs trailing,
+  glob_translate_glob_ast pat = Ok (lv, r) ->
+  resolve (comps pat) = Some pcs ->
+  glob_pattern_ok pat = true ->
+  forallb seg_ok segs = true ->
+  implb trailing (ends_c slash pat) = true ->
+  re_match (negb cs) r (path_text segs trailing)
+  = eqb trailing (ends_c slash pat) && gmatch cs pcs segs.
+Proof. exact glob_regex_correct. Qed.
+Print Assumptions C14_glob_regex_correct.
+
+Theorem C14_glob_levels_correct : forall pat lv t,
+  glob_translate_glob pat = Ok (lv, t) -> lv = ShellSpec.levels pat.
+Proof. exact glob_levels_correct. Qed.
+Print Assumptions C14_glob_levels_correct.
+
+Theorem C14_glob_translate_total : forall pat,
+  match resolve (comps pat) with
+  | None => glob_translate_glob pat = Err IllegalBackReference
+  | Some _ => exists lv t, glob_translate_glob pat = Ok (lv, t)
+  end.
+Proof. exact glob_translate_glob_total. Qed.
+Print Assumptions C14_glob_translate_total.
